@@ -86,6 +86,7 @@ type explorer struct {
 	inconclusive map[string]int
 	covers    map[string]int
 	samples   []sample
+	sampleHash []uint64
 	sampleDecs [][]decision
 	asserts   int
 	decisions int
